@@ -1,5 +1,7 @@
 // The worker is a compiled test binary (testing/synctest needs *testing.T):
-//   simworker.test -test.run '^TestWorker$' -kg.in spec.json -kg.out results.jsonl
+//
+//	simworker.test -test.run '^TestWorker$' -kg.in spec.json -kg.out results.jsonl
+//
 // It executes the runs listed in the spec and writes one JSON line per run.
 package worker
 
